@@ -204,11 +204,11 @@ def _c15():
           H("c15::c15f_invert_twice", "Color::invert: 255 - channel with the same alpha; twice is the identity; weight 0 is the identity: all 8-bit "
             "colours, any alpha in [0,1]", covers=("end", "translucent"), flags=ST)]  # one flag set = one cargo-kani group: all run side by side
     from . import engine_f
-    d = _simple(hs, ["color::Color::{new, new_rgba (engine F: modelled as a store of its four numbers), from_rgba, from_rgba_fn, red, green, blue, alpha, with_alpha, fade_in, fade_out, hue_to_rgb, as_hsla, from_hwb, mix, invert}",
+    d = _simple(hs, ["color::Color::{new, new_rgba (engine F: modelled as a store of its four numbers), from_rgba, from_rgba_fn, red, green, blue, alpha, with_alpha, fade_in, fade_out, hue_to_rgb, as_hsla, from_hwb, from_hsla (engine F; new_hsla / Hsl::new modelled as stores), mix, invert}",
                      "value::number::{Number::clamp, Number::round, fuzzy_round}", "serializer::Serializer::{is_symmetrical_hex, can_use_short_hex}", "parse::value::ValueParser::{parse_hex_color_contents, parse_hex_digit}"],
                 "every f64 argument (full width, symbolic); all 8-bit channel triples; every hex literal of 3/4 (6/8 thorough) digits; hue_to_rgb on the lattice m1=a/L, m2=b/L, "
                 "hue=c/3L (L=32 quick, 256 thorough), every point; update_value (adjust/scale/change component update)",
-                "RGB<->HSL/HWB round trips (about 25 double multiplications/divisions per colour do not finish), from_hsla and from_hwb on jointly symbolic hue x whiteness x blackness (no answer in 20 min), the named "
+                "RGB<->HSL/HWB round trips (about 25 double multiplications/divisions per colour do not finish), from_hsla and from_hwb with all arguments symbolic at once (no answer in 20 min), the named "
                 "colour table (phf), lighten/darken identities, mix at interior weights or with both alphas symbolic (20 min, no answer), compressed-mode spelling choice",
                 stubs=["engine F: C models of the std float methods, MIR->C translation validated natively each run",
                        "c15b_as_hsla_*: value::number::modulo -> its contract for the divisor 360 (finite |n1| < 2048*360 gives a result in [0,360]; "
@@ -225,6 +225,10 @@ def _c15():
          "bound": "from_hwb (MIR->C incl. its closure, exact fmod): any finite hue with |hue| < 720000, (whiteness, blackness) in {(0,0), (30,70), (1e-14,100)}"},
         {"name": "c15_from_hwb", "inputs": ["h", "w", "b"], "tiers": ("thorough",), "extra": ["-DPAIRS=5"], "timeout": {"thorough": 3000},
          "bound": "from_hwb as above with 5 pairs (adds (100,100), (70,60))"},
+        {"name": "c15_from_hsla", "inputs": ["h", "s", "l"], "tiers": ("quick",), "extra": ["-DPAIRS=3"], "timeout": {"quick": 1500},
+         "bound": "from_hsla (MIR->C, exact fmod): any finite hue with |hue| < 720000, (saturation, lightness) in {(1,0.5), (0.3,0.8), (0.5,0.25)}"},
+        {"name": "c15_from_hsla", "inputs": ["h", "s", "l"], "tiers": ("thorough",), "extra": ["-DPAIRS=5"], "timeout": {"thorough": 3000},
+         "bound": "from_hsla as above with 5 pairs (adds (1,1), (0,0.5))"},
         {"name": "c15_update_value", "inputs": ["current", "param", "big", "has", "a", "b"], "extra": ["-DUPD=1"], "replay": "c-native",
          "timeout": {"quick": 900, "thorough": 1800},
          "bound": "update_value (nested fn of adjust-/scale-/change-color, MIR->C), Adjust: current any double in [0, max], amount any finite double, max in {1, 255}"},
